@@ -2,6 +2,7 @@ package main
 
 import (
 	"bytes"
+	gocontext "context"
 	"fmt"
 	"image"
 	"log"
@@ -14,7 +15,9 @@ import (
 	"github.com/brutella/hc"
 	"github.com/brutella/hc/accessory"
 	"github.com/brutella/hc/db"
+	"github.com/brutella/hc/event"
 	"github.com/brutella/hc/hap"
+	haphttp "github.com/brutella/hc/hap/http"
 	"github.com/brutella/hc/util"
 
 	"hcverif/ref"
@@ -74,6 +77,9 @@ type Transport struct {
 	Pin  string
 	DB   db.Database
 	St   util.Storage
+	Ctx  hap.Context
+	stop func()
+	id   string
 }
 
 type camSetter interface{}
@@ -93,7 +99,7 @@ func startTransport(dir, pin string, snapshot bool, a *accessory.Accessory, as .
 		}
 	}
 	go t.Start()
-	tr := &Transport{T: t, Dir: dir, Pin: pin}
+	tr := &Transport{T: t, Dir: dir, Pin: pin, Ctx: t.VerifContext()}
 	deadline := time.Now().Add(10 * time.Second)
 	for {
 		if p := t.VerifPort(); p != "" {
@@ -119,6 +125,10 @@ func startTransport(dir, pin string, snapshot bool, a *accessory.Accessory, as .
 }
 
 func (t *Transport) Stop() {
+	if t.stop != nil {
+		t.stop()
+		return
+	}
 	select {
 	case <-t.T.Stop():
 	case <-time.After(10 * time.Second):
@@ -127,6 +137,9 @@ func (t *Transport) Stop() {
 
 // AccessoryID is the device id (pairing name of the accessory).
 func (t *Transport) AccessoryID() string {
+	if t.id != "" {
+		return t.id
+	}
 	b, _ := t.St.Get("uuid")
 	return string(b)
 }
@@ -156,4 +169,56 @@ func mkTempDir(prefix string) string {
 		panic(err)
 	}
 	return d
+}
+
+// nopEmitter satisfies event.Emitter without mDNS side effects.
+
+// startHTTPServer starts hc's HAP HTTP server (hap/http.NewServer: all endpoints, real sessions and database) without
+// the ip transport around it, i.e. without the mDNS responder whose re-announcement delays every successful pairing
+// by about a second.
+func startHTTPServer(dir, pin string, accs ...*accessory.Accessory) (*Transport, error) {
+	st, err := util.NewFileStorage(dir)
+	if err != nil {
+		return nil, err
+	}
+	database := db.NewDatabaseWithStorage(st)
+	fpin, err := hc.ValidatePin(pin)
+	if err != nil {
+		return nil, err
+	}
+	id := util.MAC48Address(util.RandomHexString())
+	device, err := hap.NewSecuredDevice(id, fpin, database)
+	if err != nil {
+		return nil, err
+	}
+	hctx := hap.NewContextForSecuredDevice(device)
+	container := accessory.NewContainer()
+	for _, a := range accs {
+		container.AddAccessory(a)
+	}
+	srv := haphttp.NewServer(haphttp.Config{Port: "127.0.0.1:0", Context: hctx, Database: database, Container: container,
+		Device: device, Mutex: &sync.Mutex{}, Emitter: event.NewEmitter()})
+	cctx, cancel := gocontext.WithCancel(gocontext.Background())
+	done := make(chan struct{})
+	go func() { srv.ListenAndServe(cctx); close(done) }()
+	tr := &Transport{Addr: "127.0.0.1:" + srv.Port(), Dir: dir, Pin: pin, DB: database, St: st, Ctx: hctx, id: id}
+	tr.stop = func() {
+		cancel()
+		select {
+		case <-done:
+		case <-time.After(5 * time.Second):
+		}
+	}
+	for i := 0; ; i++ {
+		c, err := net.DialTimeout("tcp", tr.Addr, time.Second)
+		if err == nil {
+			c.Close()
+			break
+		}
+		if i > 200 {
+			return nil, fmt.Errorf("http server did not start")
+		}
+		time.Sleep(5 * time.Millisecond)
+	}
+	return tr, nil
 }
